@@ -134,6 +134,7 @@ func main() {
 		applyPerfPatches(*repo, *out, replace)
 	}
 	extractCloneBracket(*repo, *out, replace)
+	extractRemoteChans(*repo, *out, replace)
 	keys := make([]string, 0, len(replace))
 	for k := range replace {
 		keys = append(keys, k)
@@ -230,6 +231,71 @@ func extractCloneBracket(repo, out string, replace map[string]string) {
 		die("%v", err)
 	}
 	replace[filepath.Join(repo, "app", "zz_verif_clone.go")] = dst
+}
+
+// extractRemoteChans copies the two channel-creation expressions of backend/remote Factory.Create (closeChan,
+// monitorChan: their capacities decide whether a detaching controller can block) into a generated function that the
+// stand-in constructor remote.NewForVerif uses, so that the harness backends of E-B / E-D get the repository's CURRENT
+// capacities instead of a re-statement.  If the literal cannot be found the historical capacities are used and the
+// generated file says so.
+func extractRemoteChans(repo, out string, replace map[string]string) {
+	target := filepath.Join(repo, "backend", "remote", "remote.go")
+	srcPath := target
+	if r, ok := replace[target]; ok {
+		srcPath = r
+	}
+	closeE, monE := "", ""
+	if src, err := os.ReadFile(srcPath); err == nil {
+		fset := token.NewFileSet()
+		if f, perr := parser.ParseFile(fset, "remote.go", src, 0); perr == nil {
+			ast.Inspect(f, func(n ast.Node) bool {
+				fd, ok := n.(*ast.FuncDecl)
+				if !ok || fd.Name.Name != "Create" || fd.Recv == nil || fd.Body == nil {
+					return true
+				}
+				ast.Inspect(fd.Body, func(m ast.Node) bool {
+					cl, ok := m.(*ast.CompositeLit)
+					if !ok {
+						return true
+					}
+					if id, ok := cl.Type.(*ast.Ident); !ok || id.Name != "Remote" {
+						return true
+					}
+					for _, el := range cl.Elts {
+						kv, ok := el.(*ast.KeyValueExpr)
+						if !ok {
+							continue
+						}
+						k, _ := kv.Key.(*ast.Ident)
+						if k == nil {
+							continue
+						}
+						txt := string(src[fset.Position(kv.Value.Pos()).Offset:fset.Position(kv.Value.End()).Offset])
+						switch k.Name {
+						case "closeChan":
+							closeE = txt
+						case "monitorChan":
+							monE = txt
+						}
+					}
+					return true
+				})
+				return false
+			})
+		}
+	}
+	note := "// Code generated by /verif/tools/gen from backend/remote/remote.go Factory.Create; DO NOT EDIT."
+	if closeE == "" || monE == "" || strings.Contains(closeE+monE, "r.") {
+		note = "// tools/gen: the channel expressions of Factory.Create were not found as fields of a Remote literal; historical capacities used."
+		closeE, monE = "make(chan struct{}, 5)", "make(types.MonitorChannel, 5)"
+	}
+	code := "//go:build verif\n\n" + note + "\npackage remote\n\nimport \"github.com/openebs/jiva/types\"\n\n// verifChans creates the close and monitor channels the way Factory.Create does.\nfunc verifChans() (chan struct{}, types.MonitorChannel) {\n\treturn " + closeE + ", " + monE + "\n}\n"
+	dst := filepath.Join(out, "backend", "remote", "zz_verif_chans.go")
+	os.MkdirAll(filepath.Dir(dst), 0755)
+	if err := writeIfChanged(dst, []byte(code)); err != nil {
+		die("%v", err)
+	}
+	replace[filepath.Join(repo, "backend", "remote", "zz_verif_chans.go")] = dst
 }
 
 func writeIfChanged(p string, b []byte) error {
